@@ -206,7 +206,7 @@ def grid_invariants(g):
                 b.name, sorted(b.connection_name)[:4], sorted(mention.get(b.name, set()))[:4])))
             break
     for b in g.blocklist:
-        if b.rocktype is None or b.rocktype.name not in g.rocktype:
+        if b.rocktype is None or g.rocktype.get(b.rocktype.name) is not b.rocktype:
             bad.append(('rocktype-not-registered', 'block %r has rock type %r which is not registered' % (
                 b.name, getattr(b.rocktype, 'name', None))))
             break
